@@ -649,6 +649,12 @@ def _regdir_rule(chk, prog):
         if f.name == "janet_register_stream_impl":
             reg = f
     if reg is None:
+        # the poll(2) backend has no registration step: it builds the event mask for every wait from the fibers that
+        # are parked on the stream (C16-DISPATCH decides that side)
+        if any("POLLOUT" in y.macro_names() for f in prog.tus["ev.c"].funcs.values() for y in f.nodes):
+            chk.note("C16-REGDIR: this configuration polls per pending fiber (no registration function); nothing to decide")
+            chk.floor(rule, 0, 0)
+            return
         raise AnalysisBroken("janet_register_stream_impl not found")
     chk.analysed(reg)
     masks = {}
